@@ -559,7 +559,9 @@ type outputBuffer struct {
 func (w *outputBuffer) emitEligibleFrames(output chan queuedFrame, connectionWindowSize *int) {
 	for e := w.queue.Front(); e != nil; {
 		f := e.Value.(queuedFrame) //nolint:forcetypeassert // e.Value is always a queuedFrame.
-		if f.flowControlSize() > *connectionWindowSize || f.flowControlSize() > w.windowSize {
+		// Only flow-controlled octets are subject to the windows. A frame that carries none must not
+		// wait for a window that a SETTINGS change has made negative.
+		if n := f.flowControlSize(); n > 0 && (n > *connectionWindowSize || n > w.windowSize) {
 			break
 		}
 		output <- f
